@@ -197,5 +197,7 @@ def run(chk, tier, only_rule=None):
     # ---- shared slice clamp rule
     from . import c05
     c05.r05_5(chk, tier)
+    from . import c12
+    c12.r12_3(chk, tier, units=('jmespath',))
     c05.r05_6(chk, tier, units=['jmespath'], floor=70)
     c05.r05_7(chk, tier, units=['jmespath'], floor=90)
